@@ -7,6 +7,7 @@ import (
 	"bytes"
 	"crypto/sha256"
 	"fmt"
+	"sort"
 
 	"golang.org/x/net/bpf"
 
@@ -16,10 +17,14 @@ import (
 
 // BasePolicy is policy number k of the set.
 func BasePolicy(k int) seccomp.Policy {
-	names := make([]string, 0, 16) // spare capacity on purpose
+	names := make([]string, 0, 96) // spare capacity on purpose
 	names = append(names, "write", "read", "open", "close", "execve")
 	if k%2 == 1 {
 		names = append(names, "fork", "vfork")
+	}
+	if k%4 == 3 {
+		// a big listing (as generated profiles have) in front of further groups
+		names = append(names, commonNames(70)...)
 	}
 	conds := make([]seccomp.Condition, 0, 8)
 	conds = append(conds, seccomp.Condition{Argument: 3, Operation: seccomp.Equal, Value: uint64(k)},
@@ -35,6 +40,32 @@ func BasePolicy(k int) seccomp.Policy {
 		seccomp.SyscallGroup{NamesWithCondtions: nwc, Action: seccomp.ActionKillProcess},
 		seccomp.SyscallGroup{Names: []string{"socket", "bind", "listen"}, Action: seccomp.ActionTrap})
 	return seccomp.Policy{DefaultAction: seccomp.ActionAllow, Syscalls: groups}
+}
+
+// commonNames: the first n names (in alphabetical order) that all four tables have and BasePolicy does not use otherwise.
+func commonNames(n int) []string {
+	used := map[string]bool{"write": true, "read": true, "open": true, "close": true, "execve": true, "fork": true, "vfork": true,
+		"clone": true, "ioctl": true, "socket": true, "bind": true, "listen": true}
+	var out []string
+	for name := range arch.X86_64.SyscallNames {
+		if used[name] {
+			continue
+		}
+		ok := true
+		for _, a := range []*arch.Info{arch.I386, arch.ARM, arch.AARCH64} {
+			if _, has := a.SyscallNames[name]; !has {
+				ok = false
+			}
+		}
+		if ok {
+			out = append(out, name)
+		}
+	}
+	sort.Strings(out)
+	if len(out) > n {
+		out = out[:n]
+	}
+	return out
 }
 
 // CompileBytes is the raw program of the policy as text.
